@@ -226,10 +226,14 @@ class Exec:
                 results.append(("panic", str(p), list(self.pc), self.env))
             except Infeasible:
                 pass
-            except (Unsupported, Unwind) as u:
-                # this path is not decided; the others still are (a violation found on them stands, a clean result does not)
+            except (Unsupported, Unwind, AttributeError, TypeError, KeyError, IndexError, z3.Z3Exception) as u:
+                # this path is not decided; the others still are (a violation found on them stands, a clean result does not).
+                # Python-level errors are the executor meeting a value shape it has no rule for (e.g. code reading a field the
+                # model left opaque): undecided, never a verdict.
+                if not isinstance(u, (Unsupported, Unwind)):
+                    u = Unsupported("executor has no rule for this value shape: %s: %s" % (type(u).__name__, u))
                 if first_path_done is False:
-                    raise
+                    raise u
                 self.undecided_paths.append(str(u))
                 if len(self.undecided_paths) > 200:
                     raise Unsupported(f"more than 200 undecidable paths, first: {self.undecided_paths[0]}")
